@@ -22,7 +22,23 @@ META["C09"] = dict(
     technique="Coq proof (total-preorder algebra, insertion-sort refinement, list slicing) + proved oracle evaluated by vm_compute on implementation output",
 )
 
+META["C05"] = dict(
+    text=("Theorems (Props/C05.v): for every expression tree of the modelled grammar Merge of two accumulated states equals the "
+          "state accumulated from all points (monoid homomorphism), Merge is commutative/associative with the empty state as unit "
+          "on all well-shaped states, point order is irrelevant, Get of the accumulated state equals the declared aggregate "
+          "(reference semantics `ref`) over exactly the points, Truncate keeps exactly the periods in (asOf, until] with values "
+          "unchanged, and the aggregate kernels the theorems speak about are those translated from expr/aggregates.go on this run "
+          "(Tie). Correspondence: real expr.Update/Merge/Get and Sequence.Truncate/UpdateValue/Merge/SubMerge vs the model, "
+          "plus the laws evaluated on the implementation's own outputs incl. operand bytes unchanged."),
+    design_ref="DESIGN.md section 4 / C05",
+    note=("Modelled, not verified: expr/*.go and encoding/seq.go (hand model, tied by kernel translation + correspondence). Not "
+          "modelled: PERCENTILE states, unary-math read-out, float rounding (integer inputs keep it exact), Duration saturation "
+          "at the zero time. Sequence-level Merge/UpdateValue/SubMerge are tied by correspondence; their general den-theorems "
+          "are stated in Proofs/ as they are completed."),
+    technique="Coq proof by structural induction (commutative-monoid homomorphism) + translated kernels (Tie) + model-vs-implementation differential evaluated by vm_compute",
+)
+
 NOT_APPLICABLE = [
     {"property_id": p, "reason": _PENDING}
-    for p in ["C01", "C02", "C03", "C04", "C05", "C06", "C07", "C08", "C10", "C11", "C12", "C13", "C14", "C15", "C16", "C17", "C18", "C19", "C20"]
+    for p in ["C01", "C02", "C03", "C04", "C06", "C07", "C08", "C10", "C11", "C12", "C13", "C14", "C15", "C16", "C17", "C18", "C19", "C20"]
 ]
